@@ -2,7 +2,6 @@
 package main
 
 import (
-	"encoding/json"
 	"fmt"
 	"os"
 
@@ -20,47 +19,8 @@ func main() {
 		fact.Main(os.Args[2:], "imports", "Imports", genImports)
 	case "corr":
 		corr.Main(os.Args[2:], runImports)
-		attributeDisagreements(os.Args[2:])
 	default:
 		fmt.Fprintln(os.Stderr, "usage: imports factgen|corr [flags]")
 		os.Exit(2)
-	}
-}
-
-// disagreementProps is set by runImports: the properties whose cases showed model/implementation
-// differences (a ShouldBuild difference says nothing about ReadImports and vice versa).
-var disagreementProps []string
-
-// attributeDisagreements adds the top-level key "disagreement_properties" (read by ./check) to the
-// result file corr.Main has just written; corr.Result has no field for it.
-func attributeDisagreements(args []string) {
-	out := ""
-	for i, a := range args {
-		if (a == "-out" || a == "--out") && i+1 < len(args) {
-			out = args[i+1]
-		} else if len(a) > 5 && (a[:5] == "-out=") {
-			out = a[5:]
-		} else if len(a) > 6 && (a[:6] == "--out=") {
-			out = a[6:]
-		}
-	}
-	if out == "" {
-		return
-	}
-	data, err := os.ReadFile(out)
-	if err != nil {
-		return
-	}
-	var m map[string]any
-	if json.Unmarshal(data, &m) != nil {
-		return
-	}
-	props := disagreementProps
-	if props == nil {
-		props = []string{}
-	}
-	m["disagreement_properties"] = props
-	if data, err = json.MarshalIndent(m, "", " "); err == nil {
-		os.WriteFile(out, data, 0o666)
 	}
 }
